@@ -368,6 +368,14 @@ def gen_hostile(rng, knobs=None):
     prog.append(['emit', 1, 'resp', sp[0], sp[1], 0])
     prog.append(['pump'])
     classes = k.get('classes') or CLASSES
+    if 'duplicate_request' in classes and (k.get('classes') or rng.random() < 0.3):
+        # a second live interaction opened by the peer of dst: the one a request frame re-using an active id is aimed at (the
+        # witness is spared: the ERROR[REJECTED] that answers the duplicate would end it at its requester)
+        if rng.random() < 0.5:
+            prog.append(['rr', src, spec(rng, big=False), {'mode': 'later'}])
+        else:
+            prog.append(['stream', src, spec(rng, big=False), rng.choice([1, 2, 5]), {'src': 'scripted'}, True])
+        prog.append(['pump'])
     for _ in range(rng.randint(1, 3)):
         if rng.random() < k.get('p_raise', 0.35):
             kind, pol = rng.choice(RAISE_POLICIES)
